@@ -108,7 +108,7 @@ def run_bounded(rep: Report, tier: str) -> None:
     )
     viols = H.run_histories(
         rep, tier, pid="C02", module=MODULE, checker=Checker, sizes="small", with_write=False,
-        quick_budget_s=150, nsamp_quick=320, nsamp_thorough=6000, seed_value=seed(), pmap=pmap, deadline=deadline,
+        quick_budget_s=240, nsamp_quick=320, nsamp_thorough=6000, seed_value=seed(), pmap=pmap, deadline=deadline,
         preps=H.PREP_ORDER_VALUE,
     )
     H.report_violations(rep, MODULE, viols)
